@@ -7,9 +7,14 @@ structure: which flattened fields take part in positional initialization (the fi
 of every union, recursively through anonymous members).
 An initializer is produced twice: as the Python object given to cffi and as the tree
 [k, b, items, n] given to the specification, with leaf values already encoded to bytes by
-struct.pack (value encoding is C03/C05's subject)."""
+struct.pack (value encoding is C03/C05's subject).  A bytes/str initializer is given to the
+specification as its characters (byte values / code points) and the unit width of the array
+items: how many units it takes (UTF-16 surrogate pairs) is decided by the ideal, StrUnits."""
 import struct
 from harness import core
+
+# code points at every boundary of the UTF-16 / UTF-32 encodings (first/last of each plane segment, both sides)
+CP_BOUNDARY = [0x7F, 0x80, 0xFF, 0x100, 0xD7FF, 0xE000, 0xFFFD, 0xFFFF, 0x10000, 0x10001, 0x10FFFE, 0x10FFFF]
 
 PRIMS = {  # name: (size, kind, chr (arrays accept bytes/str), ischar (CT_PRIMITIVE_CHAR))
     "signed char": (1, "b", 1, 0), "unsigned char": (1, "B", 1, 0), "char": (1, "char", 1, 1),
@@ -19,6 +24,12 @@ PRIMS = {  # name: (size, kind, chr (arrays accept bytes/str), ischar (CT_PRIMIT
     "wchar_t": (4, "u32", 1, 1), "void *": (8, "ptr", 0, 0), "_Bool": (1, "bool", 0, 0),
 }
 GUARD = 256
+
+
+def n_units(cps, w):
+    """number of array items a bytes/str with these characters takes at unit width w (harness-side twin of the
+    ideal's StrUnits; used only to bound what is generated and to size the allocation of new-then-assign)"""
+    return len(cps) + (sum(1 for c in cps if c > 0xFFFF) if w == 2 else 0)
 BITFIELD_TYPES = ["unsigned char", "short", "int", "unsigned int", "long long", "unsigned short"]
 
 
@@ -280,27 +291,75 @@ class Lab:
         v = rng.choice([lo, hi, 0, rng.randint(lo, hi)])
         return v, [((v >> i) & 1) for i in range(bs)]
 
+    def gen_char(self, p):
+        rng = self.rng
+        if p.size == 1:
+            return rng.randint(1, 255)
+        return rng.choice([rng.randint(1, 0xD7FF), rng.randint(0x10000, 0x10FFFF), 0x41, rng.choice(CP_BOUNDARY)])
+
     def gen_string(self, p, maxunits):
-        """(python value, units) with at most maxunits units (None: free)"""
+        """(python value, characters) taking at most maxunits array items (None: free)"""
         rng = self.rng
         lim = rng.randint(0, 12) if maxunits is None else rng.randint(0, maxunits)
-        units, cps_ = [], []
+        cps_ = []
         while True:
-            if p.kind in ("b", "B", "char"):
-                c, u = rng.randint(1, 255), None
-                u = [c]
-            elif p.kind == "u16":
-                c = rng.choice([rng.randint(1, 0xD7FF), rng.randint(0x10000, 0x10FFFF), 0x41])
-                u = [c] if c < 0x10000 else [0xD800 + ((c - 0x10000) >> 10), 0xDC00 + ((c - 0x10000) & 0x3FF)]
-            else:
-                c = rng.choice([rng.randint(1, 0xD7FF), rng.randint(0x10000, 0x10FFFF), 0x41])
-                u = [c]
-            if len(units) + len(u) > lim:
+            c = self.gen_char(p)
+            if n_units(cps_ + [c], p.size) > lim:
                 break
-            units += u
             cps_.append(c)
-        v = bytes(cps_) if p.size == 1 else "".join(map(chr, cps_))
-        return v, units
+        return self.pystr(p, cps_), cps_
+
+    @staticmethod
+    def pystr(p, cps_):
+        return bytes(cps_) if p.size == 1 else "".join(map(chr, cps_))
+
+    # ------------------------------------------------------------ boundary sweep of bytes/str initializers
+    def boundary_cases(self, p):
+        """For a character type p: every code point of CP_BOUNDARY (that p can hold) x every place a bytes/str can
+        initialize an array of p (open top-level array, fixed top-level array that it fills exactly / with room,
+        flexible member by position / by name, fixed member followed by other members, flexible member of a nested
+        var-sized struct), once alone and once among random neighbours - plus, per code point, strings one unit too
+        long for a fixed array (ill-formed: judged only for writes past the allocation).
+        Yields (type, python initializer, tree, description)."""
+        rng = self.rng
+
+        def agg(members):
+            return Agg(self.tag(), False, members)
+
+        def field(nm="f"):
+            self.nname = getattr(self, "nname", 0) + 1
+            return "%s%d" % (nm, self.nname)
+        for cp in [c for c in CP_BOUNDARY if c <= (255 if p.size == 1 else 0x10FFFF)]:
+            for variant in ("alone", "among"):
+                if variant == "alone":
+                    cps_ = [cp] * rng.choice([1, 1, 2])
+                else:
+                    cps_ = ([self.gen_char(p) for _ in range(rng.randint(0, 3))] + [cp] * rng.choice([1, 2])
+                            + [self.gen_char(p) for _ in range(rng.randint(0, 3))])
+                v, s = self.pystr(p, cps_), mk("str", cps_, n=p.size)
+                nu = n_units(cps_, p.size)
+                what = "U+%04X %s" % (cp, variant)
+                pre = self.gen_prim(chars=False)
+                lv, lb = self.gen_leaf(pre)
+                yield Arr(p, None), v, s, "open array:" + what
+                yield Arr(p, nu), v, s, "array filled exactly:" + what
+                yield Arr(p, nu + rng.randint(1, 3)), v, s, "array with room:" + what
+                t = agg([(field(), pre, None), ("tail", Arr(p, None), None)])
+                yield t, [lv, v], mk("seq", items=[mk("leaf", lb), s]), "flexible member by position:" + what
+                t = agg([(field(), pre, None), ("tail", Arr(p, None), None)])
+                yield t, {"tail": v}, mk("dict", items=[{"name": "tail", "v": s}]), "flexible member by name:" + what
+                g1, g2 = field("g"), field("g")
+                t = agg([("s", Arr(p, nu), None), (g1, Prim("unsigned short"), None), (g2, pre, None)])
+                yield t, {"s": v}, mk("dict", items=[{"name": "s", "v": s}]), "member filled exactly:" + what
+                inner = agg([(field(), pre, None), ("tail", Arr(p, None), None)])
+                t = agg([(field(), Prim("unsigned char"), None), ("vlast", inner, None)])
+                yield (t, {"vlast": [lv, v]},
+                       mk("dict", items=[{"name": "vlast", "v": mk("seq", items=[mk("leaf", lb), s])}]),
+                       "nested flexible member:" + what)
+                if nu >= 1:
+                    yield Arr(p, nu - 1), v, s, "too long for array:" + what
+                    t = agg([("s", Arr(p, nu - 1), None)])
+                    yield t, [v], mk("seq", items=[s]), "too long for last member:" + what
 
     # ------------------------------------------------------------ random initializers
     def field_span(self, f):
@@ -349,7 +408,7 @@ class Lab:
             ischars = isinstance(t.item, Prim) and t.item.chr
             if ischars and k < 0.35:
                 v, units = self.gen_string(t.item, t.n)
-                return v, mk("str", units, n=t.item.size)
+                return v, mk("str", units, n=t.item.size)       # units: the characters (code points)
             if t.n is None and k < 0.5:
                 n = rng.choice([0, 1, 2, rng.randint(0, 9)])
                 return n, mk("len", n=n)
@@ -416,7 +475,7 @@ class Lab:
         for f, v in pairs:
             ft = f["t"]
             if ft["k"] == "arr" and ft["len"] < 0:
-                out[f["name"]] = {"seq": len(v["items"]), "str": len(v["b"]) + 1, "len": v["n"]}[v["k"]]
+                out[f["name"]] = {"seq": len(v["items"]), "str": n_units(v["b"], v["n"]) + 1, "len": v["n"]}[v["k"]]
             elif rec_with_var(ft) and v["k"] != "copy":
                 out[f["name"]] = self.lens_only(ft, v)
         return out
